@@ -36,6 +36,20 @@ PROGRAMS = [
 ]
 
 
+# programs around four names that are registered (postfix pct, prefix twice, infix plus, function q) *after* program A was
+# parsed: "the registrations made so far" are the same in both runs, only the earlier parse differs
+REG_PROGRAMS = ['x pct', 'pct + 1', 'twice x', 'x plus y', 'q', 'q ( x )', 'x pct plus twice y', '[ pct , twice , plus ]']
+
+
+def do_registrations(it):
+    first = PyFn(lambda i, a: Ok(a[0] if a else api.V_NONE), 'first')
+    firstv = PyFn(lambda i, a: Ok(a[0].items[0] if (a and isinstance(a[0], Arr) and a[0].items) else api.V_NONE), 'firstv')
+    it.call('register_postfix_op', [mkstr('pct'), ArcV(Cell(first, 'h'))])
+    it.call('register_prefix_op', [mkstr('twice'), ArcV(Cell(first, 'h'))])
+    it.call('register_infix_op', [mkstr('plus'), 100, Enum('InfixOpType', 0, 'CALC'), Enum('InfixOpAssociativity', 0, 'LEFT'), ArcV(Cell(first, 'h'))])
+    it.call('register_function', [mkstr('q'), ArcV(Cell(firstv, 'h'))])
+
+
 def prepare(it):
     it.call('init::init', [])
 
@@ -117,6 +131,8 @@ def harness(it, px, params):
     rec = {'A': A, 'B': B, 'mode': mode}
     snap0 = registries_snapshot(it)
     # ---- alone
+    if mode == 'parse-then-register':
+        do_registrations(it)
     ctxB = ctx_of(it, xs['x2'], xs['y2'])
     oB = api.execute(it, B, ctxB)
     oB, eB = outcome_triple(it, oB, ctxB)
@@ -132,7 +148,12 @@ def harness(it, px, params):
     # ---- history
     ctxA = ctx_of(it, xs['x'], xs['y'])
     problems = []
-    if mode == 'parse-only':
+    if mode == 'parse-then-register':
+        pa = api.parse(it, A)
+        if pa.kind not in ('ok', 'err'):
+            problems.append(('parse-%s' % pa.kind, 'parse of A ends with %s' % pa.kind, None))
+        do_registrations(it)
+    elif mode == 'parse-only':
         before = registries_snapshot(it)
         pa = api.parse(it, A)
         ch = changed_cells(before, it)
@@ -190,7 +211,10 @@ def scenario(A, B, mode, w):
                 {'op': 'ctx_set_var', 'ctx': name, 'name': b'x'.hex(), 'value': {'t': 'num', 'm': x, 's': 0}},
                 {'op': 'ctx_set_var', 'ctx': name, 'name': b'y'.hex(), 'value': {'t': 'num', 'm': y, 's': 0}}]
     steps = []
-    if mode == 'parse-only':
+    if mode == 'parse-then-register':
+        steps.append({'op': 'parse', 'hex': A.encode().hex(), 'want': []})
+        steps += REG_STEPS
+    elif mode == 'parse-only':
         steps.append({'op': 'parse', 'hex': A.encode().hex(), 'want': []})
     elif mode == 'twice-same-ast':
         steps += ctx('a1', w['x'], w['y']) + [{'op': 'execute', 'hex': A.encode().hex(), 'ctx': 'a1'}]
@@ -203,8 +227,14 @@ def scenario(A, B, mode, w):
     return steps
 
 
-def scenario_alone(B, w):
-    return [{'op': 'ctx_new', 'ctx': 'b'},
+REG_STEPS = [{'op': 'register_postfix', 'name': b'pct'.hex(), 'handler': {'h': 'first', 'id': 'pct'}},
+             {'op': 'register_prefix', 'name': b'twice'.hex(), 'handler': {'h': 'first', 'id': 'twice'}},
+             {'op': 'register_infix', 'name': b'plus'.hex(), 'prec': 100, 'type': 'CALC', 'assoc': 'LEFT', 'handler': {'h': 'first', 'id': 'plus'}},
+             {'op': 'register_function', 'name': b'q'.hex(), 'handler': {'h': 'first', 'id': 'q'}}]
+
+
+def scenario_alone(B, w, mode=None):
+    return (REG_STEPS if mode == 'parse-then-register' else []) + [{'op': 'ctx_new', 'ctx': 'b'},
             {'op': 'ctx_set_var', 'ctx': 'b', 'name': b'x'.hex(), 'value': {'t': 'num', 'm': w['x2'], 's': 0}},
             {'op': 'ctx_set_var', 'ctx': 'b', 'name': b'y'.hex(), 'value': {'t': 'num', 'm': w['y2'], 's': 0}},
             {'op': 'execute', 'hex': B.encode().hex(), 'ctx': 'b'}, {'op': 'ctx_dump', 'ctx': 'b'}]
@@ -220,12 +250,14 @@ def run(ctx):
     eng = ctx.engine('dev')
     recs, summ = ex.explore(eng, harness, dict(params, modes=['parse-only', 'once', 'twice-same-ast'], wall_budget=200 if ctx.tier == 'quick' else 1200), prepare=prepare)
     recs2, summ2 = ex.explore(eng, harness, dict(params, modes=['repeat'], wall_budget=200 if ctx.tier == 'quick' else 1500), prepare=prepare)
-    recs += recs2
-    for k in ('paths', 'sat', 'unsat', 'unknown', 'solver_s', 'steps', 'decisions'):
-        summ[k] += summ2[k]
-    summ['truncated'] = summ['truncated'] or summ2['truncated']
-    summ['models_used'] = sorted(set(summ['models_used']) | set(summ2['models_used']))
-    summ['bodies_used'] = sorted(set(summ['bodies_used']) | set(summ2['bodies_used']))
+    recs3, summ3 = ex.explore(eng, harness, dict(params, programs=REG_PROGRAMS, modes=['parse-then-register'], wall_budget=120 if ctx.tier == 'quick' else 600), prepare=prepare)
+    recs += recs2 + recs3
+    for s_ in (summ2, summ3):
+        for k in ('paths', 'sat', 'unsat', 'unknown', 'solver_s', 'steps', 'decisions'):
+            summ[k] += s_[k]
+        summ['truncated'] = summ['truncated'] or s_['truncated']
+        summ['models_used'] = sorted(set(summ['models_used']) | set(s_['models_used']))
+        summ['bodies_used'] = sorted(set(summ['bodies_used']) | set(s_['bodies_used']))
     inconclusive = []
     by_status = {}
     for r in recs:
@@ -236,7 +268,7 @@ def run(ctx):
     covers = set()
     for r in recs:
         covers.update(r.get('covers', []))
-    for need in ('mode-parse-only', 'mode-once', 'mode-repeat', 'mode-twice-same-ast'):
+    for need in ('mode-parse-only', 'mode-once', 'mode-repeat', 'mode-twice-same-ast', 'mode-parse-then-register'):
         if need not in covers:
             inconclusive.append('vacuity: %s never reached' % need)
     groups = {}
@@ -252,7 +284,7 @@ def run(ctx):
         for f in fs[:6]:
             sc = scenario(f['A'], f['B'], f['mode'], f['witness'])
             od = ctx.native(sc, 'dev', timeout=120)
-            oa = ctx.native(scenario_alone(f['B'], f['witness']), 'dev')
+            oa = ctx.native(scenario_alone(f['B'], f['witness'], f['mode']), 'dev')
             validated += 1
             bad = obs_key(od[-2]) != obs_key(oa[-2]) or obs_key(od[-1]) != obs_key(oa[-1])
             if f['mode'] == 'twice-same-ast':
@@ -286,7 +318,7 @@ def run(ctx):
         'coverage': {
             'states': max(1, summ['paths']), 'transitions': max(1, summ['decisions']),
             'traces_validated_against_impl': validated, 'samples': samples, 'exhaustive': not summ.get('truncated') and not inconclusive, 'truncated_by_budget': bool(summ.get('truncated')),
-            'bound': {'programs': len(progs), 'ordered_pairs': len(progs) ** 2, 'history_modes': ['parse-only', 'once', 'repeat x%d' % R, 'same AST twice'],
+            'bound': {'programs': len(progs), 'ordered_pairs': len(progs) ** 2, 'history_modes': ['parse-only', 'once', 'repeat x%d' % R, 'same AST twice', 'A parsed, then postfix/prefix/infix/function registrations, then B (programs: %s)' % REG_PROGRAMS],
                       'context_values': 'four symbolic integers |n| <= 10^12'},
             'path_status': by_status, 'global_cells_changed_by_a_call': changed,
             'solver': {'engine': 'z3 ' + z3.get_version_string(), 'queries_sat': summ['sat'], 'queries_unsat': summ['unsat'],
